@@ -91,6 +91,8 @@ func c03Build(rt *rapid.T, s *stdSvc, cell c03Cell, g stdIngress) *AMsg {
 				toHost = "tail-lit.test"
 			case 4:
 				toHost = "static-high.test" // next hop on a port beyond 32767
+			case 5:
+				toHost = "Static-Caps.Corp.test" // configured with capital letters, spelled the same in the message
 			}
 		}
 	case 1:
